@@ -20,7 +20,7 @@ use crate::config::RegExpConfig;
 use crate::dfa::Dfa;
 use crate::expression::Expression;
 use itertools::Itertools;
-use regex::Regex;
+use regex::{Regex, RegexBuilder};
 use std::cmp::Ordering;
 use std::fmt::{Display, Formatter, Result};
 
@@ -75,17 +75,29 @@ impl<'a> RegExp<'a> {
         // Convert only those test cases to lowercase if
         // they keep their original number of characters.
         // Otherwise, "İ" -> "i\u{307}" would not match "İ".
+        // The regex crate must also match the original test case
+        // case-insensitively, its Unicode tables can be older than the standard library's.
         *test_cases = test_cases
             .iter()
             .map(|it| {
                 let lower_test_case = it.to_lowercase();
-                if lower_test_case.chars().count() == it.chars().count() {
+                if lower_test_case.chars().count() == it.chars().count()
+                    && Self::is_matched_case_insensitively(&lower_test_case, it)
+                {
                     lower_test_case
                 } else {
                     it.to_string()
                 }
             })
             .collect_vec();
+    }
+
+    fn is_matched_case_insensitively(lower_test_case: &str, test_case: &str) -> bool {
+        lower_test_case == test_case
+            || RegexBuilder::new(&format!("^{}$", regex::escape(lower_test_case)))
+                .case_insensitive(true)
+                .build()
+                .is_ok_and(|regex| regex.is_match(test_case))
     }
 
     fn convert_expr_to_regex(expr: &Expression, config: &RegExpConfig) -> Option<Regex> {
